@@ -204,7 +204,7 @@ def resultStr (r : Option Result) : String :=
   | some .ctx => "ctx"
   | some .closed => "closed"
   | some (.werr codes) => "werr:" ++ ",".intercalate (codes.map showCode)
-  | some (.rejected .metadata _) => "meta"
+  | some (.rejected .metadata _) => "k3"        -- the fake cluster answers UnknownTopicOrPartition for the topic it lacks
   | some (.rejected .toolarge _) => "k10"     -- MessageTooLargeError unwraps to MessageSizeTooLarge (error.go)
   | some (.rejected _ _) => "other"
 
